@@ -99,10 +99,11 @@ def plan(ctx):
     specs = c12_geos.geometry_specs(rng, T)
     bands = c12_geos.band_specs(rng, T)
     tasks = []
-    npts = 20000 if T else 2000
-    nblk = 3000 if T else 300
-    nlin = 1500 if T else 150
-    nprim = 2000 if T else 250
+    # case counts per geometry (the run is bounded by these counts, never by time)
+    npts = 8000 if T else 2000
+    nblk = 1500 if T else 300
+    nlin = 600 if T else 150
+    nprim = 1000 if T else 250
     for s in specs:
         big = s['kind'] == 'file' and s['name'] in ('g2.dat', 'g4.dat')
         f = 0.25 if big else 1.0
@@ -254,9 +255,7 @@ def process(ctx, exe, results):
                             'B': 'block_containing_point', 'X': 'block_contains_point'}[k]
                     ncmp[name] += 1
                     if k == 'L':
-                        if scale is None:
-                            scale = max(abs(float(x)) for x in io.replace(':', ' ').split()[:4]) if io != 'N' else 1.0
-                        if not leaf_agrees(mo, io, max(scale, 1.0)):
+                        if not leaf_agrees(mo, io, r.get('cmag', 1.0)):
                             if meta.get('near_split'): counts['discarded_leaf_near_split_line'] += 1
                             else: ctx.disagreement(name, {'geometry': r['spec'], 'query': meta}, mo, io)
                     elif mo != io:
